@@ -672,7 +672,26 @@ def run_namesake_broadcast(chk, spec):
 			return
 
 
-RUNNERS = {"namesake_broadcast": run_namesake_broadcast, "call_write_call": run_call_write_call, "row_method": run_row_method, "str_format_sequence": run_str_format_sequence, "table_unary": run_table_unary, "table_columnwise": run_table_columnwise, "unsized": run_unsized, "symbolic": run_symbolic, "identity": run_identity, "row_arith": run_row_arith, "helper": run_helper, "arith": run_arith, "table_arith": run_table_arith, "method": run_method, "date_days": run_date_days, "recompute": recompute.runner("C05")}
+def run_empty_typed_vs_untyped(chk, spec):
+	"""operands of the same length - zero - give the empty result, also when one is a typed empty vector (what a filter leaves) and the other an empty vector that
+	was never typed"""
+	import operator
+	kinds = {"date": [date(2020, 1, 1)], "int": [1], "str": ["a"], "float": [1.5]}
+	typed = Vector(list(kinds[spec["kind"]]))[0:0]
+	untyped = Vector([])
+	op = {"add": operator.add, "sub": operator.sub, "mul": operator.mul}[spec["opname"]]
+	a, b = (typed, untyped) if spec["side"] == "typed-left" else (untyped, typed)
+	o = call(op, a, b)
+	chk.judged("arith-value", ("empty-typed-vs-untyped", spec["kind"], spec["opname"], spec["side"]))
+	if not o.ok:
+		if isinstance(o.exc, (AttributeError, IndexError)):
+			chk.fail("serif computes what Python defines", f"arith/raises-where-python-defines/empty-typed-vs-untyped/{spec['kind']}/{type(o.exc).__name__}", f"{spec!r}: two operands of length 0: {o!r}")
+		return
+	if isinstance(o.value, Vector) and len(o.value) != 0:
+		chk.fail("the result has the length of the operands", "arith/length/empty-typed-vs-untyped", f"{spec!r}: {o.value!r}")
+
+
+RUNNERS = {"empty_typed_vs_untyped": run_empty_typed_vs_untyped, "namesake_broadcast": run_namesake_broadcast, "call_write_call": run_call_write_call, "row_method": run_row_method, "str_format_sequence": run_str_format_sequence, "table_unary": run_table_unary, "table_columnwise": run_table_columnwise, "unsized": run_unsized, "symbolic": run_symbolic, "identity": run_identity, "row_arith": run_row_arith, "helper": run_helper, "arith": run_arith, "table_arith": run_table_arith, "method": run_method, "date_days": run_date_days, "recompute": recompute.runner("C05")}
 
 PAIRS = [("int", "int"), ("int", "float"), ("float", "int"), ("bool", "int"), ("int", "complex"), ("float", "float"), ("str", "str"),
 	("str", "int"), ("date", "timedelta"), ("datetime", "timedelta"), ("timedelta", "timedelta"), ("timedelta", "int"), ("list", "list"),
@@ -725,6 +744,10 @@ def run(chk):
 	rng = chk.rng
 	for spec in product_specs(chk):
 		chk.case("arith", spec, "arith-" + spec["form"])
+	for kind in ("date", "int", "str", "float"):
+		for opname in ("add", "sub", "mul"):
+			for side in ("typed-left", "typed-right"):
+				chk.case("empty_typed_vs_untyped", {"kind": kind, "opname": opname, "side": side}, "arith-empty-typed-vs-untyped")
 	for kind in ("date", "int", "str"):
 		for order in ("namesake-first", "real-first"):
 			for typed in ("inferred", "object"):
